@@ -9,6 +9,12 @@ def run(tier):
     chk.model("MCHalf", what="AlgoF2H/AlgoH2F refine H2F/F2HRel on all 2^16 halves and a structured float set; corollaries; classes; limits; round(n)")
     files = halfcommon.sweep(chk, "cxx14-table")
     res, nrec = halfcommon.validate(chk, "cxx14-table", files)
+    if halfcommon.have_f16c():
+        # the same statement holds for the hardware path, whatever the thread's rounding direction (C02 compares the back-ends;
+        # here the F16C build under fesetround(FE_UPWARD) is held to the definition directly)
+        f2 = halfcommon.sweep(chk, "cxx14-f16c-upward")
+        res2, nrec2 = halfcommon.validate(chk, "cxx14-f16c-upward", f2)
+        nrec += nrec2
     chk.sample_lines(files[3], idx=(1, 2, 3, 200))
     chk.sample_lines(files[0], idx=(2, 65540))
     chk.assumptions += [
